@@ -75,6 +75,20 @@ def _worker_init(hfactory):
         _INIT_ERR = "worker initialisation failed: " + repr(e) + "\n" + traceback.format_exc()
 
 
+def _xcheck_stats(ex, stats):
+    """moves the cvc5 cross-check counters of this worker into the task statistics; a disagreement is an error string"""
+    xc = getattr(ex.glob, "xcheck", None)
+    if not xc:
+        return None
+    stats["xcheck_agree"] += xc["agree"]; stats["xcheck_unknown"] += xc["unknown"]
+    err = None
+    if xc["disagree"]:
+        d = xc["disagree"][0]
+        err = f"solver disagreement: z3 says {d[0]}, cvc5 says {d[1]} on a sampled query: {d[2][:600]}"
+    ex.glob.xcheck = {"agree": 0, "unknown": 0, "disagree": []}
+    return err
+
+
 def _worker_task(args):
     prefixes, max_paths, deadline = args
     if _INIT_ERR:
@@ -86,7 +100,8 @@ def _worker_task(args):
         _EX.glob.solver_time = 0.0
         stats["cache_hits"] += _EX.glob.cache_hits
         _EX.glob.cache_hits = 0
-        return recs, left, dict(stats), None
+        xerr = _xcheck_stats(_EX, stats)
+        return recs, left, dict(stats), xerr
     except Exception as e:
         return [], [], {}, "worker error: " + repr(e) + "\n" + traceback.format_exc()
 
@@ -182,7 +197,8 @@ def _many_task(args):
         stats["task_ms"] = int((time.time() - t0) * 1000)
         stats["solver_time_ms"] += int(ex.glob.solver_time * 1000)
         ex.glob.solver_time = 0.0
-        return idx, recs, len(left), dict(stats), None
+        xerr = _xcheck_stats(ex, stats)
+        return idx, recs, len(left), dict(stats), xerr
     except Exception as e:
         return idx, [], 0, {}, "worker error: " + repr(e) + "\n" + traceback.format_exc()
 
